@@ -531,6 +531,16 @@ theorem asChar_inv {n c : Nat} {s s' : St} (h : asChar n s = .ok c s') : isScala
   · obtain ⟨rfl, _⟩ := U8.pure_ok h; exact hs
   · simp [errAt] at h
 
+theorem asEscapedChar_inv {n c : Nat} {s s' : St} (h : asEscapedChar n s = .ok c s') :
+    isScalar c = true := by
+  unfold asEscapedChar at h
+  rcases U8.ite_ok h with ⟨_, h⟩ | ⟨_, h⟩
+  · obtain ⟨o, s1, _, h⟩ := U8.bind_ok h
+    cases o with
+    | none => simp [errAt] at h
+    | some b => exact asChar_inv h
+  · exact asChar_inv h
+
 theorem decodeElispCharEscape_inv {fuel : Nat} {s s' : St} {c : Nat}
     (h : decodeElispCharEscape fuel s = .ok c s') : isScalar c = true := by
   unfold decodeElispCharEscape at h
@@ -562,10 +572,14 @@ theorem decodeElispCharEscape_inv {fuel : Nat} {s s' : St} {c : Nat}
     rcases U8.ite_ok h with ⟨hs, h⟩ | ⟨_, h⟩
     · obtain ⟨rfl, _⟩ := U8.pure_ok h; exact hs
     · simp [errAt] at h
-  iterate 4
+  iterate 2
     rcases U8.ite_ok h with ⟨_, h⟩ | ⟨_, h⟩
     · obtain ⟨n, s2, _, h⟩ := U8.bind_ok h
       exact asChar_inv h
+  iterate 2
+    rcases U8.ite_ok h with ⟨_, h⟩ | ⟨_, h⟩
+    · obtain ⟨n, s2, _, h⟩ := U8.bind_ok h
+      exact asEscapedChar_inv h
   rcases U8.ite_ok h with ⟨_, h⟩ | ⟨_, h⟩
   · obtain ⟨⟨c', bytes⟩, s2, hd, h⟩ := U8.bind_ok h
     obtain ⟨rfl, _⟩ := U8.pure_ok h
